@@ -16,7 +16,12 @@ def some(x):
 
 
 def opt_src(o):
-    return "None" if not o["some"] else str(o["v"])
+    return "None" if not o["some"] else str(o.get("far", o["v"]))
+
+
+def far(sign, rnd):
+    """an index far outside every sequence: the oracle sees +-10^6, the source text a value beyond int32 / int64"""
+    return {"some": True, "v": sign * 1000000, "far": sign * rnd.choice([1 << 31, (1 << 31) + 1, 1 << 62, 1 << 64, 10 ** 30])}
 
 
 def codes(s):
@@ -83,10 +88,13 @@ def gen_slices(ctx, rnd, out):
         # explicit None spellings and far out of range indices
         for n in (0, 3):
             s = LETTERS8[:n]
-            for lo, hi, st in itertools.product(("None", "-1000000", "1000000", "2147483647", "-2147483648"), repeat=3):
+            FAR = ("None", "-1000000", "1000000", "2147483647", "-2147483648", "2147483648", "-2147483649", "4611686018427387904",
+                   "-4611686018427387904", "18446744073709551616", "-18446744073709551616")
+            for lo, hi, st in itertools.product(FAR, FAR, ("None", "-1000000", "1000000", "2147483647", "-2147483648")):
                 if ty == "range":
                     continue
-                o = lambda t: NONE if t == "None" else some(int(t))
+                # an index beyond int32 is clamped like any other far index: the oracle gets +-10^6 in its place (TLC integers are 32-bit)
+                o = lambda t: NONE if t == "None" else some(max(-1000000, min(1000000, int(t))) if abs(int(t)) > 2147483647 else int(t))
                 if st in ("None",) or abs(int(st)) > 0:
                     out.append({"op": "slice", "ty": ty, "s": codes(s), "lo": o(lo), "hi": o(hi), "st": o(st),
                                 "src": "%s[%s:%s:%s]" % (recv_src(ty, s), lo, hi, st)})
@@ -132,7 +140,7 @@ def gen_search(ctx, rnd, out):
     needles = list(all_strings(alpha, 2))
     for s in all_strings(alpha, maxlen):
         n = len(s)
-        rng = [NONE] + [some(i) for i in range(-n - 1, n + 2)]
+        rng = [NONE] + [some(i) for i in range(-n - 1, n + 2)] + [far(-1, rnd), far(1, rnd)]
         for sub in needles:
             for lo in rng:
                 for hi in rng:
@@ -464,8 +472,12 @@ def run(ctx):
         raise vlib.MachineryError("TLC checked %d of %d records" % (checked, len(cases)))
     byid = {c["id"]: c for c in cases}
     # re-execute every rejected case alone before reporting it
+    reported = set()
     for cid in sorted(set(bad)):
         c = byid[cid]
+        if signature(c) in reported:       # one re-executed representative per signature
+            continue
+        reported.add(signature(c))
         r2 = evaluate(ctx, [c], tag="re%d" % cid)[cid]
         if record(c, r2)["res"] != record(c, res[cid])["res"]:
             raise vlib.MachineryError("case %d not reproducible" % cid)
